@@ -251,6 +251,71 @@ theorem default_member_found_partial (strs : List (List Char)) (s reprValue : Li
         rw [List.find?_cons_of_neg hno]
         exact hn
 
+/-- two entries with the same literal text are the same entry (the lexer reads the entry back) -/
+theorem member_literal_injective (t s : List Char)
+    (h : quoted '\'' enumTable t = quoted '\'' enumTable s) : t = s := by
+  have h1 := member_read_back (.str t)
+  have h2 := member_read_back (.str s)
+  simp only [memberDefault] at h1 h2
+  rw [h, h2] at h1
+  simpa using h1.symm
+
+/-- PARTIAL, escaped strings (`--set-default-enum-member`; the region outside known finding D24): a default
+equal to an entry whose hand-escaped literal IS `repr(default)` (backslash, `\n`, `\r`, `\t`, NUL … without
+quotes) is found through the second comparison of `find_member`, provided no OTHER entry has the same text
+after stripping quotes. The member returned has that entry's value. -/
+theorem default_member_found_by_repr_partial (strs : List (List Char)) (s reprValue : List Char) :
+    ∀ (ms : List Member),
+      ms.map (·.2) = strs.map (fun t => memberDefault (.str t)) →
+      s ∈ strs → s ≠ [] →
+      quoted '\'' enumTable s = reprValue →
+      (∀ t ∈ strs, t ≠ s → stripQ (quoted '\'' enumTable t) ≠ stripQ s) →
+      ∃ n, defaultMember ms (.str s) reprValue = some n ∧ (n, memberDefault (.str s)) ∈ ms := by
+  induction strs with
+  | nil => intro ms _ hs _ _ _; cases hs
+  | cons t ts ih =>
+    intro ms hms hs hne hrepr htwin
+    cases ms with
+    | nil => simp at hms
+    | cons m ms' =>
+      simp only [List.map_cons, List.cons.injEq] at hms
+      obtain ⟨hm, hms'⟩ := hms
+      have hnf : (JVal.str s).falsy = false := by
+        simp only [JVal.falsy]; cases s with
+        | nil => exact absurd rfl hne
+        | cons _ _ => rfl
+      by_cases hts : t = s
+      · subst hts
+        refine ⟨m.1, ?_, ?_⟩
+        · have hyes : memberMatches (.str t) reprValue m = true := by
+            simp [memberMatches, hm, memberDefault, hrepr]
+          simp [defaultMember, hnf, findMember, List.find?_cons_of_pos hyes]
+        · rw [← hm]; exact List.mem_cons_self
+      · have hs' : s ∈ ts := by
+          simp only [List.mem_cons] at hs
+          rcases hs with hs | hs
+          · exact absurd hs.symm hts
+          · exact hs
+        obtain ⟨n, hn, hmem⟩ := ih ms' hms' hs' hne hrepr
+          (fun u hu => htwin u (List.mem_cons_of_mem _ hu))
+        refine ⟨n, ?_, List.mem_cons_of_mem _ hmem⟩
+        have hno : ¬ memberMatches (.str s) reprValue m = true := by
+          unfold memberMatches
+          rw [hm]
+          simp only [memberDefault, Default.strOrEmpty, JVal.pyStr, Bool.or_eq_true, beq_iff_eq, not_or]
+          refine ⟨htwin t List.mem_cons_self hts, fun h => hts ?_⟩
+          exact member_literal_injective t s (h.trans hrepr.symm)
+        simp only [defaultMember, hnf, Bool.false_eq_true, if_false, findMember] at hn ⊢
+        rw [List.find?_cons_of_neg hno]
+        exact hn
+
+/-- non-vacuity: `a\b` (backslash) next to `x`: the literal `'a\\b'` is `repr("a\\b")`, no twin -/
+example :
+    quoted '\'' enumTable ['a', '\\', 'b'] = ['\'', 'a', '\\', '\\', 'b', '\''] ∧
+    ∀ t ∈ [['x'], ['a', '\\', 'b']], t ≠ ['a', '\\', 'b'] →
+      stripQ (quoted '\'' enumTable t) ≠ stripQ ['a', '\\', 'b'] := by
+  decide +kernel
+
 /-- non-vacuity: the hypotheses hold for an ordinary enum -/
 example : ∀ t ∈ [['a'], ['b', ' ', 'c'], ['m', 'r', 'o']], plainStr t = true := by decide
 
@@ -274,5 +339,86 @@ theorem default_member_falsy_witness (ms : List Member) (r : List Char) :
     defaultMember ms (.int 0) r = none ∧ defaultMember ms (.str []) r = none ∧
       defaultMember ms (.bool false) r = none := by
   simp [defaultMember, JVal.falsy]
+
+
+/-! ### the text of a default member across modules (`Parser.__set_default_enum_member`, whole run) -/
+
+/-- FULL STRENGTH: run `__set_default_enum_member` over ANY sequence of fields (all modules, any
+processing order, starting from any heap of `Member` objects) and render every default at the end, as
+`Parser.parse` does. The text of each default is `stepText` of ITS OWN field: a function of the alias
+`__change_from_import` gave the field's own data type (i.e. of the module the field lives in), of the
+enum and of the default — never of which other fields, in which other modules, were processed before or
+after it. (`Member` objects are allocated per lookup: an alias written for one field cannot reach another.) -/
+theorem default_text_depends_on_own_field_only (steps : List Step) :
+    ∀ (h rest : Heap),
+      ∃ tail, (runSteps h steps).1 = h ++ tail ∧
+        (runSteps h steps).2.map (renderOut ((runSteps h steps).1 ++ rest)) = steps.map stepText := by
+  induction steps with
+  | nil => intro h rest; exact ⟨[], by simp [runSteps], by simp [runSteps]⟩
+  | cons s ss ih =>
+    intro h rest
+    obtain ⟨tail, ht, hr⟩ := ih (h ++ stepCells s) rest
+    refine ⟨stepCells s ++ tail, ?_, ?_⟩
+    · simp only [runSteps, applyStep_closed, ht, List.append_assoc]
+    · simp only [runSteps, applyStep_closed, List.map_cons, List.cons.injEq]
+      refine ⟨?_, hr⟩
+      rw [ht]
+      have := render_closed h (tail ++ rest) s
+      simpa [List.append_assoc] using this
+
+/-- the statement as it is used: from the empty heap, rendering in the final heap -/
+theorem default_text_whole_run (steps : List Step) :
+    (runSteps [] steps).2.map (renderOut (runSteps [] steps).1) = steps.map stepText := by
+  obtain ⟨_, _, hr⟩ := default_text_depends_on_own_field_only steps [] []
+  simpa using hr
+
+/-- two runs that process the same field among DIFFERENT other fields (other modules before it, after it,
+in another order) print the same text for it -/
+theorem default_text_history_independent (pre₁ post₁ pre₂ post₂ : List Step) (s : Step) :
+    ((runSteps [] (pre₁ ++ s :: post₁)).2.map (renderOut (runSteps [] (pre₁ ++ s :: post₁)).1))[pre₁.length]? =
+    ((runSteps [] (pre₂ ++ s :: post₂)).2.map (renderOut (runSteps [] (pre₂ ++ s :: post₂)).1))[pre₂.length]? := by
+  rw [default_text_whole_run, default_text_whole_run]
+  simp
+
+/-- non-vacuity / the shape the seeded leak has: the same value is the default of a field of the defining
+module (no alias) and of a field of an importing module (alias `s.C`), in both processing orders: the
+defining module prints `C.r`, the importing one `s.C.r` -/
+example :
+    let ms : List Member := [(['r'], .lit ['\'', 'r', '\'']), (['g'], .lit ['\'', 'g', '\''])]
+    let own : Step := ⟨['C'], ms, none, .scalar (.str ['r']) ['\'', 'r', '\'']⟩
+    let imp : Step := ⟨['C'], ms, some ['s', '.', 'C'], .list [(.str ['r'], ['\'', 'r', '\'']), (.str ['g'], ['\'', 'g', '\''])]⟩
+    (runSteps [] [own, imp]).2.map (renderOut (runSteps [] [own, imp]).1) =
+      [.one ['C', '.', 'r'], .many [['s', '.', 'C', '.', 'r'], ['s', '.', 'C', '.', 'g']]] ∧
+    (runSteps [] [imp, own]).2.map (renderOut (runSteps [] [imp, own]).1) =
+      [.many [['s', '.', 'C', '.', 'r'], ['s', '.', 'C', '.', 'g']], .one ['C', '.', 'r']] := by
+  decide +kernel
+
+/-- FULL STATEMENT for the module that defines the enum (false, see `defining_module_dotted_witness`): a field
+of the defining module (`data_type.alias` is None there) refers to the member through the class name that
+module binds -/
+def DefiningModuleText (s : Step) : Prop :=
+  s.dtAlias = none → ∀ n ∈ foundNames s, memberText s n = shortName s.enumName ++ '.' :: n
+
+/-- PARTIAL: it holds when the definition name of the enum carries no module (no dot) -/
+theorem defining_module_text_partial (s : Step) (hyp : '.' ∉ s.enumName) : DefiningModuleText s := by
+  intro ha n _
+  have hs : shortName s.enumName = s.enumName := by
+    unfold shortName
+    have : s.enumName.reverse.takeWhile (· != '.') = s.enumName.reverse := by
+      apply takeWhile_eq_self
+      intro c hc
+      simp only [bne_iff_ne, ne_eq]
+      intro h; subst h; exact hyp (List.mem_reverse.mp hc)
+    rw [this, List.reverse_reverse]
+  simp [memberText, ha, aliasOr, hs]
+
+/-- REFUTATION (known finding C09-F1): for a definition named `s.C` the defining module `s` binds `C`, but
+the default is printed as `s.C.r` -/
+theorem defining_module_dotted_witness :
+    ¬ DefiningModuleText ⟨['s', '.', 'C'], [(['r'], .lit ['\'', 'r', '\''])], none, .scalar (.str ['r']) ['\'', 'r', '\'']⟩ := by
+  intro h
+  have := h rfl ['r'] (by decide)
+  revert this
+  decide
 
 end Dcg.Props.C09
